@@ -221,6 +221,10 @@ def affected(p0, e):
         for i, c in enumerate(cells):
             if c.universe is u or getattr(c.fill, "universe", None) is u:
                 aff.add(("cell", i))
+            # a lattice cell filled with a matrix of universes refers to each of them by number
+            us = getattr(c.fill, "universes", None)
+            if us is not None and any(x is u for x in us.flatten()):
+                aff.add(("cell", i))
         aff.add("celldata")
     elif op in ("importance", "importance_all", "volume", "del_volume", "universe", "fill_universe"):
         aff.add(("cell", e[1]))
